@@ -676,6 +676,163 @@ func genRotRace(idx int, seed int64, thorough bool) *Scenario {
 	return s
 }
 
+// genHeldTail builds the directed scenario "unterminated line held across a
+// maintenance reopen": the writer stops in the middle of a line, file.d reads
+// the fragment, goes idle, and its maintenance closes and reopens the fully
+// read file (at least three ticks); only then is the line completed and more
+// lines follow; later the process is killed (or stopped) and restarted.
+func genHeldTail(idx int, seed int64, variant int, thorough bool) *Scenario {
+	g := newGen(idx, seed, "heldtail")
+	s := g.s
+	r := g.r
+	s.Cfg = genConfig(r, thorough)
+	s.Cfg.TickMs = pick(r, 50, 100)
+	if s.Cfg.AsyncMs > 100 {
+		s.Cfg.AsyncMs = pick(r, 20, 50)
+	}
+	if s.Cfg.Chain == "join" {
+		s.Cfg.Chain = "none"
+	}
+	g.initFiles(1+r.Intn(2), func() int { return 1 + r.Intn(2) })
+	g.feature("partial-held-across-maintenance-reopen")
+	for f := 0; f < s.NFiles; f++ {
+		g.appendOp(f, 2+r.Intn(12))
+	}
+	preHeld := variant%3 == 2
+	if preHeld { // the fragment is already there when file.d starts
+		g.pbeginOp(0)
+	}
+	g.add(Op{Kind: "START1"})
+	if !preHeld {
+		g.sleepOp(100)
+		if r.Intn(2) == 0 {
+			g.appendOp(0, 1+r.Intn(6))
+		}
+		g.pbeginOp(0)
+	}
+	g.add(Op{Kind: "HELDIDLE"})
+	g.pendOp(0)
+	g.appendOp(0, 2+r.Intn(8)) // later lines move the committed offset past the completed line
+	if s.NFiles > 1 {
+		g.appendOp(1, 1+r.Intn(5))
+	}
+	if r.Intn(3) == 0 { // a second fragment, held again
+		g.pbeginOp(0)
+		g.add(Op{Kind: "HELDIDLE"})
+		g.pendOp(0)
+		g.appendOp(0, 1+r.Intn(5))
+	}
+	switch variant % 2 {
+	case 0:
+		g.add(Op{Kind: "WAITIDLE"}) // everything of run 1 committed and saved before the end
+		s.Kill = KillPlan{Mode: pick(r, "external", "term"), DelayMs: s.Cfg.AsyncMs + 60}
+	default:
+		s.Kill = KillPlan{Mode: "external", DelayMs: pick(r, 0, 20, 80, 200)}
+	}
+	g.add(Op{Kind: "KILL"})
+	if r.Intn(2) == 0 {
+		g.appendOp(0, 1+r.Intn(6))
+	}
+	g.add(Op{Kind: "START2"})
+	g.finish()
+	g.add(Op{Kind: "END"})
+	return s
+}
+
+// genDownTrunc builds the directed scenario "truncation while file.d is down"
+// (copytruncate between two runs): content A is delivered, committed and saved,
+// the process is stopped (SIGTERM) or killed, the file is truncated and gets
+// shorter new content B (below every saved offset of the file), file.d is
+// restarted on the persisted offsets file; later content C grows past the old
+// size. Lines of A are not expected (README caveat: whatever was not yet
+// delivered when the file was truncated is gone); B and C are.
+func genDownTrunc(idx int, seed int64, variant int, thorough bool) *Scenario {
+	g := newGen(idx, seed, "downtrunc")
+	s := g.s
+	r := g.r
+	s.Cfg = genConfig(r, thorough)
+	s.Cfg.Chain = "none"
+	if s.Cfg.AsyncMs > 100 {
+		s.Cfg.AsyncMs = pick(r, 20, 50, 100)
+	}
+	s.Cfg.WatchChanges = variant%2 == 1
+	nStreams := 1 + r.Intn(2)
+	g.initFiles(1+r.Intn(2), func() int { return nStreams })
+	g.feature("truncation-while-down")
+	streams := g.fileStream[0]
+	var A []int
+	nA := 16 + r.Intn(20)
+	for i := 0; i < nA; i++ {
+		A = append(A, g.newLine(0, streams[r.Intn(len(streams))], "plain"))
+	}
+	for _, st := range streams { // every stream ends near the end of the file
+		A = append(A, g.newLine(0, st, "plain"))
+	}
+	for _, li := range A {
+		s.Lines[li].Expect = false
+	}
+	preFirst := r.Intn(2) == 0
+	if preFirst {
+		g.add(Op{Kind: "append", File: 0, Lines: A, Chunks: 1 + r.Intn(2)})
+	}
+	if s.NFiles > 1 {
+		g.appendOp(1, 3+r.Intn(10))
+	}
+	g.add(Op{Kind: "START1"})
+	if !preFirst {
+		g.sleepOp(120)
+		g.add(Op{Kind: "append", File: 0, Lines: A, Chunks: 1 + r.Intn(2)})
+	}
+	switch (variant / 2) % 3 {
+	case 0: // idle, then SIGKILL
+		g.add(Op{Kind: "WAITIDLE"})
+		g.add(Op{Kind: "WAITSAVED", File: 0, Ms: 250})
+		s.Kill = KillPlan{Mode: "external", DelayMs: 0}
+		g.feature("killed-when-idle")
+	case 1: // idle, then graceful stop (Stop saves the last offsets)
+		g.add(Op{Kind: "WAITIDLE"})
+		g.add(Op{Kind: "WAITSAVED", File: 0, Ms: 250})
+		s.Kill = KillPlan{Mode: "term", DelayMs: 0}
+		g.feature("stopped-with-SIGTERM")
+	default: // killed as soon as every stream of the file is saved beyond 250 bytes
+		g.add(Op{Kind: "WAITSAVED", File: 0, Ms: 250})
+		s.Kill = KillPlan{Mode: "external", DelayMs: 0}
+		g.feature("killed-in-flight")
+	}
+	g.add(Op{Kind: "KILL"})
+	g.add(Op{Kind: "TRUNC", File: 0})
+	nB := 1 + r.Intn(3)
+	var B []int
+	for i := 0; i < nB; i++ {
+		st := streams[r.Intn(len(streams))]
+		g.seq++
+		id := fmt.Sprintf("@%s-%06d@", s.Tag, g.seq)
+		l := Line{ID: id, File: 0, Stream: st, Kind: "plain", Expect: true, Phys: -1}
+		if st != "" {
+			l.Text = fmt.Sprintf(`{"log":"B %s","stream":%q}`, id, st)
+		} else {
+			l.Text = fmt.Sprintf(`{"log":"B %s"}`, id)
+		}
+		s.Lines = append(s.Lines, l)
+		B = append(B, len(s.Lines)-1)
+	}
+	g.add(Op{Kind: "append", File: 0, Lines: B, Chunks: 1})
+	if s.NFiles > 1 && r.Intn(2) == 0 {
+		g.appendOp(1, 1+r.Intn(5))
+	}
+	g.add(Op{Kind: "START2"})
+	g.add(Op{Kind: "WAITIDS", File: 0, Lines: B})
+	var C []int
+	nC := nA + 6 + r.Intn(10)
+	for i := 0; i < nC; i++ {
+		C = append(C, g.newLine(0, streams[r.Intn(len(streams))], "plain"))
+	}
+	g.add(Op{Kind: "append", File: 0, Lines: C, Chunks: 1 + r.Intn(2)})
+	g.finish()
+	g.add(Op{Kind: "END"})
+	return s
+}
+
 // genTrunc builds a truncation scenario (no kill): content A, truncation,
 // shorter content B (below the old read offset), then content C growing past
 // the old size. Families:
